@@ -70,6 +70,7 @@ pub fn property() -> Property {
       Scenario { id: 5, name: "BareDataReaderStream", quick: 1_500, thorough: 150_000, max_len: 80, max_threads: 0 },
       Scenario { id: 6, name: "async write on a full command queue", quick: 1_500, thorough: 150_000, max_len: 80, max_threads: 0 },
       Scenario { id: 7, name: "async wait for acknowledgments", quick: 1_000, thorough: 100_000, max_len: 80, max_threads: 0 },
+      Scenario { id: 8, name: "completion channel of the asynchronous waits under two free-running threads (unscheduled stress: can only find, never prove)", quick: 40, thorough: 3_000, max_len: 40, max_threads: 4 },
     ],
     run,
     exhaustive: Some(exhaustive),
@@ -995,12 +996,98 @@ fn writer_scenario(scenario: u32, c: &mut Choices, o: &mut Outcome) {
   }
 }
 
+/// Scenario 8. The code between "look into the channel" and "leave the waker behind" in
+/// `StatusReceiverStream::poll_next` runs under a lock that the sender takes too; a cooperative
+/// yield point cannot be placed inside it (the other thread would block on the real mutex), so
+/// this window is exercised with two free-running threads instead: per round, one thread polls
+/// the stream once while the other sends the completion token, released together from a spin
+/// barrier with a generated skew. After both have finished: if the poll returned Pending, the
+/// waker was never called, and polling by hand now yields the token, a wake-up was lost. Every
+/// report is a true violation; a clean run proves nothing (the schedule is not owned).
+fn stress_scenario(c: &mut Choices, o: &mut Outcome) {
+  use std::sync::atomic::AtomicU32;
+
+  use crate::dds::statusevents::{sync_status_channel, StatusEvented};
+  let rounds = 200 + 50 * c.pick(5);
+  let skews: Vec<u32> = (0..16).map(|_| u32::from(c.byte())).collect();
+  o.sample = format!("stress rounds={rounds} skews={skews:?}");
+  o.digest = fnv(o.sample.as_bytes());
+  let mut pending_rounds = 0u32;
+  let mut woken_rounds = 0u32;
+  for round in 0..rounds {
+    let Ok((sender, mut receiver)) = sync_status_channel::<()>(1) else {
+      o.verdict = Verdict::Discard("cannot create a status channel".into());
+      return;
+    };
+    let fw = Arc::new(FlagWaker {
+      flag: AtomicBool::new(false),
+      count: AtomicUsize::new(0),
+    });
+    let waker: Waker = fw.clone().into();
+    let gate = Arc::new(AtomicU32::new(0));
+    let g2 = Arc::clone(&gate);
+    let skew = skews[round % skews.len()];
+    let producer = thread::spawn(move || {
+      g2.fetch_add(1, Ordering::SeqCst);
+      while g2.load(Ordering::SeqCst) < 2 {
+        std::hint::spin_loop();
+      }
+      for _ in 0..skew {
+        std::hint::spin_loop();
+      }
+      let _ = sender.try_send(());
+      sender // keep the sender alive until the round has been judged
+    });
+    gate.fetch_add(1, Ordering::SeqCst);
+    while gate.load(Ordering::SeqCst) < 2 {
+      std::hint::spin_loop();
+    }
+    for _ in 0..(255 - skew) / 4 {
+      std::hint::spin_loop();
+    }
+    let first = {
+      let mut cx = Context::from_waker(&waker);
+      let mut stream = receiver.as_async_status_stream();
+      Pin::new(&mut stream).poll_next(&mut cx)
+    };
+    let sender = producer.join();
+    if first.is_pending() {
+      pending_rounds += 1;
+      let woken = fw.count.load(Ordering::SeqCst) > 0;
+      if woken {
+        woken_rounds += 1;
+      }
+      let second = {
+        let mut cx = Context::from_waker(&waker);
+        let mut stream = receiver.as_async_status_stream();
+        Pin::new(&mut stream).poll_next(&mut cx)
+      };
+      if !woken && matches!(second, Poll::Ready(Some(()))) {
+        o.violate(
+          "c13.lost-wakeup",
+          "completion-channel:two-threads",
+          format!("round {round}: the task polled the completion stream (Pending) while the writer side sent the token; the token is in the channel (polling by hand gives Ready), but the task's waker was never called - an awaiting task would sleep for ever (rounds that parked so far: {pending_rounds}, woken: {woken_rounds})"),
+        );
+        drop(sender);
+        return;
+      }
+    }
+    drop(sender);
+  }
+  o.nontrivial = pending_rounds > 0 && woken_rounds > 0;
+  o.label("completion-channel-stress");
+  if pending_rounds > 0 {
+    o.label("stress:parked-then-woken");
+  }
+}
+
 pub fn run(scenario: u32, choices: &[u8], _strict: bool) -> Outcome {
   let mut c = Choices::new(choices);
   let mut o = Outcome::new();
   match scenario {
     0..=5 => reader_scenario(scenario, &mut c, &mut o),
     6 | 7 => writer_scenario(scenario, &mut c, &mut o),
+    8 => stress_scenario(&mut c, &mut o),
     9999 => {
       // replay of one schedule of the exhaustive enumeration: [scenario, script, decisions...]
       let sc = u32::from(choices.first().copied().unwrap_or(0));
